@@ -1052,19 +1052,8 @@ fn hex_to_decimal(ch: char) -> u64 {
 /// from additional whitespaces at both sides. The final string is also trimmed.
 /// After trimming, spaces around additional characters (`.`,`/`,`-`,`'`,`+`,`*`) are removed.
 fn flatten_name_parts(parts: &[String]) -> String {
-  parts
-    .iter()
-    .map(|s| s.trim().to_string())
-    .collect::<Vec<String>>()
-    .join(" ")
-    .trim()
-    .to_string()
-    .replace(" . ", ".")
-    .replace(" / ", "/")
-    .replace(" - ", "-")
-    .replace(" ' ", "'")
-    .replace(" + ", "+")
-    .replace(" * ", "*")
+  // the same normal form as the names stored in the scope
+  Name::from(parts.to_vec()).into()
 }
 
 /// Definitions of errors raised by the lexer.
